@@ -503,6 +503,32 @@ func extractGrpcBroker(p *pkgs, f *facts) {
 	} else {
 		f.miss = append(f.miss, "blockedClientListener.Close")
 	}
+	// the knock loop works on the slot Accept registered the listener with: Accept's `go` literal calls
+	// `b.listenForKnocks(id, <P>)` with <P> the variable Accept assigned from getServerStream(id), and listenForKnocks itself
+	// never looks a slot up (no getServerStream / getClientStream call in its body)
+	usesSlot := false
+	if acc, lk := p.fn("GRPCBroker", "Accept"), p.fn("GRPCBroker", "listenForKnocks"); acc != nil && lk != nil {
+		slotVar := ""
+		ast.Inspect(acc.Body, func(n ast.Node) bool {
+			if as, ok := n.(*ast.AssignStmt); ok && len(as.Lhs) == 1 && len(as.Rhs) == 1 && exprString(as.Rhs[0]) == "b.getServerStream(id)" && slotVar == "" {
+				slotVar = exprString(as.Lhs[0])
+			}
+			return true
+		})
+		passes := false
+		ast.Inspect(acc.Body, func(n ast.Node) bool {
+			if ce, ok := n.(*ast.CallExpr); ok && exprString(ce.Fun) == "b.listenForKnocks" {
+				passes = slotVar != "" && len(ce.Args) == 2 && exprString(ce.Args[1]) == slotVar
+			}
+			return true
+		})
+		lookups := strings.Count(nodeCalls(lk.Body), "getServerStream(") + strings.Count(nodeCalls(lk.Body), "getClientStream(")
+		usesSlot = passes && lookups == 0 && writesTo(acc.Body, slotVar) <= 1
+	} else {
+		f.miss = append(f.miss, "GRPCBroker.Accept / listenForKnocks")
+	}
+	f.lean = append(f.lean, fmt.Sprintf("def grpcKnockLoop : GrpcMux.KnockLoopParams := ⟨%s⟩", leanBool(usesSlot)))
+	f.set("grpcKnockLoop", map[string]interface{}{"usesAcceptSlot": usesSlot})
 	f.lean = append(f.lean, fmt.Sprintf("def grpcMuxClientClose : GrpcMux.ClientCloseParams := ⟨%s⟩", leanBool(discards)))
 	f.set("grpcMuxClientClose", map[string]interface{}{"discardsAnnounced": discards})
 	f.lean = append(f.lean, fmt.Sprintf("def grpcMuxHandoff : GrpcMux.HandoffParams := ⟨%s⟩", leanBool(releasedOnClose)))
